@@ -75,6 +75,15 @@ def build_template(x):
             return {name: None} if x.get("explicit_null") else {}
         if x["via"] == "literal":
             return {name: txt}
+        if x["via"] == "sub_local":
+            # the text is assembled by Fn::Sub from the expression's OWN variables; template parameters of the same names exist and
+            # must lose (seeded change C17-r4m2: the merge order of Fn::Sub reversed, so `${Bits}` took the parameter's 16)
+            params["Net"] = {"Type": "String", "Default": "10.9.8.7"}
+            params["Bits"] = {"Type": "String", "Default": "16"}
+            if isinstance(txt, str) and "/" in txt and "$" not in txt:
+                a, b = txt.split("/", 1)
+                return {name: {"Fn::Sub": ["${Net}/${Bits}", {"Net": a, "Bits": b}]}}
+            return {name: {"Fn::Sub": ["${Net}", {"Net": txt}]}}
         if x["via"] == "ref_default":
             params[pname] = {"Type": "String", "Default": txt}
         else:
@@ -697,7 +706,7 @@ def gen_group(rng):
 
 def gen_rule_case(rng):
     """One template-level case record for the EC2 kinds (fields CidrIp / CidrIpv6)."""
-    x = {"kind": rng.choice(EC2_KINDS), "via": rng.choice(["literal", "literal", "ref_default", "ref_extra"]),
+    x = {"kind": rng.choice(EC2_KINDS), "via": rng.choice(["literal", "literal", "ref_default", "ref_extra", "sub_local"]),
          "stage": rng.choice(["parse", "resolve"]), "pos": rng.randrange(2)}
     tags = []
     r = rng.random()
@@ -729,7 +738,7 @@ def gen_rule_case(rng):
 
 
 def gen_rds_case(rng):
-    x = {"kind": rng.choice(RDS_KINDS), "via": rng.choice(["literal", "literal", "ref_default", "ref_extra"]),
+    x = {"kind": rng.choice(RDS_KINDS), "via": rng.choice(["literal", "literal", "ref_default", "ref_extra", "sub_local"]),
          "stage": rng.choice(["parse", "resolve"]), "pos": rng.randrange(2)}
     tags = []
     if rng.random() < 0.85:
